@@ -71,10 +71,10 @@ package connectconformance
 // multiplexer error, a failure for a client-reported error, the verdict of assert for a
 // result, and a failure for a response that has neither.
 //@ func runTestCasesForServer$3
-//@   requires wfResults(results) && logPrinter != nil && testCase != nil && testCase.Request != nil && req != nil
+//@   requires wfResults(results) && logPrinter != nil && testCase != nil && testCase.Request != nil && testCase.ExpectedResponse != nil && req != nil
 //@   requires err == nil ==> resp != nil
 //@   requires resp != nil ==> (typeis(resp.Result, *conformancev1.ClientCompatResponse_Error) ==> unbox(resp.Result, *conformancev1.ClientCompatResponse_Error) != nil) &&
 //@        (typeis(resp.Result, *conformancev1.ClientCompatResponse_Response) ==> unbox(resp.Result, *conformancev1.ClientCompatResponse_Response) != nil) //# oneof wrappers of a decoded message are never nil pointers
-//@   modifies held, atomicI32, map[string]testOutcome, map[string]string, *[]error
+//@   modifies held, atomicI32, map[string]testOutcome, map[string]string, *[]error, []error
 //@   ensures @recorded has(results.outcomes, name)
 //@   ensures @setup err != nil ==> results.outcomes[name].setupError && results.outcomes[name].actualFailure == err
